@@ -371,6 +371,9 @@ func RunConc(c *ConcCase) (*ConcHistory, error) {
 					if r.Exp == 0 {
 						r.Exp = h.PreLast
 					}
+				case "soon":
+					// a revision that is about to be handed out inside this phase: a guess that can come true
+					r.Exp = h.PreLast + 2 + uint64(op.V)%uint64(nOps+1)
 				case "future":
 					r.Exp, r.FutureClass = h.PreLast+uint64(nOps)+1, true
 				case "far":
